@@ -111,6 +111,8 @@ func ChildMain(args []string) {
 			}
 		case "cache":
 			runCacheCase(e, u, ci)
+		case "tie":
+			runTieCase(e, ci)
 		case "store":
 			_, blocks, maxBig := storeParams(thorough)
 			runStoreCase(e, u, ci, blocks, maxBig)
@@ -228,6 +230,7 @@ func runChunk(o *drv.Out, grain string, n, total int) {
 func Run(o *drv.Out) {
 	thorough := o.Tier == "thorough"
 	runChunk(o, "cache", 160, cacheCaseCount(thorough)) // permanent corpus first
+	runChunk(o, "tie", 160, tieCaseCount())
 	for _, c := range smtConfigs(thorough) {
 		runChunk(o, "smt", c.n, c.cases)
 	}
